@@ -191,9 +191,11 @@ def build_mdp14(case, m=None, lab=None):
         dt = np.float32 if opts.get("float32") else (np.int64 if opts.get("int_arrays") else float)
         P = np.zeros((n, nA, n), dtype=dt); R = np.zeros((n, nA, n), dtype=np.float32 if opts.get("float32") else float)
         AM = np.zeros((n, nA), dtype=np.int64 if opts.get("int_types") else float)
+        listed = m.get("listed", m["actions"])     # what actions(s) lists (may be fewer than the model defines, or none)
         for k, row in m["trans"].items():
             s, a = map(int, k.split(","))
-            AM[s, a] = 1
+            if a in listed[s]:
+                AM[s, a] = 1
             for ns, p in row:
                 P[s, a, ns] = fl(p)
         for k, r in m["reward"].items():
@@ -223,7 +225,7 @@ def build_mdp14(case, m=None, lab=None):
             rew[(lab.S[s], lab.A[a], lab.S[ns])] = fl_(r)
         # ONE list object returned by actions(s) for all states with the same action set
         alists = {}
-        actions = {lab.S[s]: alists.setdefault(tuple(acts), [lab.A[a] for a in acts]) for s, acts in enumerate(m["actions"])}
+        actions = {lab.S[s]: alists.setdefault(tuple(acts), [lab.A[a] for a in acts]) for s, acts in enumerate(m.get("listed", m["actions"]))}
         absorbing = {lab.S[s]: bool(x) for s, x in enumerate(m["absorbing"])}
         init = DictDistribution({lab.S[s]: fl_(p) for s, p in m["init"]})
         zero = 0 if opts.get("int_types") else 0.0
@@ -235,7 +237,7 @@ def build_mdp14(case, m=None, lab=None):
             is_absorbing=lambda s: absorbing[s],
             discount_rate=gamma)
         mdp._c14_trans, mdp._c14_rew, mdp._c14_actions, mdp._c14_absorbing, mdp._c14_init = trans, rew, actions, absorbing, init
-    if m is not case["mdp"] and opts.get("repr") != "matrices":
+    if (m is not case["mdp"] or "listed" in m) and opts.get("repr") != "matrices":
         # second MDP of a case (absorbing flags may differ from the generator's self-looping absorbing states): explicit lists,
         # so that the cached matrix views do not depend on reachability analysis
         mdp._state_list, mdp._action_list = tuple(lab.S), tuple(lab.A)
@@ -547,7 +549,7 @@ def build_pomdp(case):
     for k, d in case["obs"].items():
         a, ns = map(int, k.split(","))
         obs[(lab.A[a], ns)] = mk_dist(d, lab.O)
-    actions = [tuple(lab.A[x] for x in a) for a in m["actions"]]
+    actions = [tuple(lab.A[x] for x in a) for a in m.get("listed", m["actions"])]
     absorbing = list(m["absorbing"])
     init = DictDistribution({s: fl(p) for s, p in m["init"]})
 
